@@ -522,6 +522,9 @@ def extract_env_renderers(repo: str) -> dict:
     out["cc_stdin"] = piece(fn, " < ", "create_command: f-string with ` < `")
     out["cc_stdout"] = piece(fn, " > ", "create_command: f-string with ` > `")
     out["cc_stderr"] = piece(fn, " 2>", "create_command: f-string with ` 2>`")
+    merges = [n.value.value for n in ast.walk(fn) if isinstance(n, ast.Assign) and isinstance(n.value, ast.Constant)
+              and isinstance(n.value.value, str) and "2>&1" in n.value.value and ast.unparse(n.targets[0]) == "stderr"]
+    out["cc_merge"] = _one(merges, "create_command: `stderr = ' 2>&1'` (stderr merged into stdout, the default)")
     fmt = [n for n in ast.walk(fn) if isinstance(n, ast.Constant) and isinstance(n.value, str) and "{workdir}" in n.value]
     fmt = _one(fmt, "create_command: format string with {workdir}").value
     if fmt != "{workdir}{environment}{command}{stdin}{stdout}{stderr}":
@@ -638,6 +641,9 @@ def generate(repo: str) -> tuple[str, str]:
     lines.append("/-- every extracted template that renders a path, directory or environment value (the framing / wrapping templates,")
     lines.append("    whose arguments are command texts by design, are left out) -/")
     lines.append(f"def allTemplates : List Template := [{', '.join(n for n in all_names if n not in ('bsc_frame', 'bsc_wrap', 'bsc_plain'))}]")
+    lines.append("")
+    lines.append("/-- name -> template, for the drivers -/")
+    lines.append("def table : List (String × Template) := [" + ", ".join(f'("{n}", {n})' for n in all_names) + "]")
     lines.append("")
     lines.append("end SFV.Gen.Cmd")
     return TARGET, "\n".join(lines) + "\n"
